@@ -189,6 +189,53 @@ template <class T> void neighbours_all(long long lo, long long hi)
 }
 }
 
+// Unsigned coordinates at the ends of the type's range: "No range checking is performed", i.e. the neighbours are
+// computed with the position type's own arithmetic, which for an unsigned T is arithmetic modulo 2^bits (no overflow, so
+// nothing undefined): 8 resp. 4 distinct positions, none of them the position itself, each x +- 1 / y +- 1 in T.
+template <class T> void neighbours_unsigned_edges()
+{
+  static_assert(std::is_unsigned_v<T> && sizeof(T) >= sizeof(int));
+  static std::string const n_moore = std::string("moore_neighbors<") + c18::tname<T>::v + ">/edge";
+  static std::string const n_neumann = std::string("neumann_neighbors<") + c18::tname<T>::v + ">/edge";
+  using pos = fcppt::container::grid::pos<T, 2>;
+  T const mx = std::numeric_limits<T>::max();
+  T const vals[] = {T(0), T(1), T(2), T(mx - 2), T(mx - 1), mx};
+  for (int xi = 0; xi < 6; ++xi)
+    for (int yi = 0; yi < 6; ++yi)
+    {
+      T const x = vals[xi], y = vals[yi];
+      std::set<pt> want_m, want_n;
+      for (int dx = -1; dx <= 1; ++dx)
+        for (int dy = -1; dy <= 1; ++dy)
+        {
+          if (dx == 0 && dy == 0)
+            continue;
+          T const nx = static_cast<T>(dx < 0 ? x - T(1) : (dx > 0 ? x + T(1) : x));
+          T const ny = static_cast<T>(dy < 0 ? y - T(1) : (dy > 0 ? y + T(1) : y));
+          want_m.insert({static_cast<long long>(nx), static_cast<long long>(ny)});
+          if (dx == 0 || dy == 0)
+            want_n.insert({static_cast<long long>(nx), static_cast<long long>(ny)});
+        }
+      pos const p(x, y);
+      if (vrt::begin(n_moore.c_str(), xi, yi))
+      {
+        vrt::nontrivial(xi == 0 || xi == 5 || yi == 0 || yi == 5);
+        std::vector<pt> const got = to_points<T>(fcppt::container::grid::moore_neighbors(p));
+        std::set<pt> const gs(got.begin(), got.end());
+        VRT_CHECK(got.size() == 8 && gs.size() == 8, n_moore + ":duplicate", "not 8 distinct positions: %s", show(got).c_str());
+        VRT_CHECK(gs == want_m, n_moore + ":wrong", "got %s", show(got).c_str());
+      }
+      if (vrt::begin(n_neumann.c_str(), xi, yi))
+      {
+        vrt::nontrivial(xi == 0 || xi == 5 || yi == 0 || yi == 5);
+        std::vector<pt> const got = to_points<T>(fcppt::container::grid::neumann_neighbors(p));
+        std::set<pt> const gs(got.begin(), got.end());
+        VRT_CHECK(got.size() == 4 && gs.size() == 4, n_neumann + ":duplicate", "not 4 distinct positions: %s", show(got).c_str());
+        VRT_CHECK(gs == want_n, n_neumann + ":wrong", "got %s", show(got).c_str());
+      }
+    }
+}
+
 namespace
 {
 // ------------------------------------------------------------------ iterator protocol (laws in C18_protocol.hpp)
@@ -305,6 +352,8 @@ void register_grid_shards()
     // unsigned positions: x-1 is only meaningful for x >= 1 ("no range checking is performed")
     neighbours_all<unsigned>(1, 2 * r + 1);
     neighbours_all<unsigned long>(1, 2 * r + 1);
+    neighbours_unsigned_edges<unsigned>();
+    neighbours_unsigned_edges<unsigned long>();
   });
 }
 }
